@@ -245,5 +245,7 @@ def GradU_A_GradV(
     Ne, nPg = dN_e_pg.shape[:2]
     A = FeArray.broadcast(A, Ne, nPg, tensor_ndim=2)
     coef = FeArray.broadcast(coef, Ne, nPg)
-    # return (coef * diffusePart_e_pg @ A @ dN_e_pg).integrate()
-    return einsum("epij,epjk->eik", coef * diffusePart_e_pg, A @ dN_e_pg)
+    # row = test function v_i, column = trial function u_k (as every assembled matrix):
+    # entry [i, k] = ∫ coef · ∇N_k · A · ∇N_i, hence Aᵀ between the two gradients
+    # (the two coincide for a symmetric A)
+    return einsum("epij,epjk->eik", coef * diffusePart_e_pg, A.T @ dN_e_pg)
